@@ -181,7 +181,7 @@ static void c8_case(uint64_t idx, void *vctx)
     char cfgn[64];
     static const pixman_repeat_t reps[4] = { PIXMAN_REPEAT_NONE, PIXMAN_REPEAT_NORMAL, PIXMAN_REPEAT_PAD, PIXMAN_REPEAT_REFLECT };
     for (int si = 0; si < 4; si++) {
-        if (!th && (si == 0 || si == 2) && !c->projective) { if (si == 0) continue; }
+        /* (the 1x1 source matters: with a repeat mode the library treats it as a solid colour) */
         for (int fi = 0; fi < 4; fi++) {
             int sw = SZ[si][0], sh = SZ[si][1];
             uint32_t raw[16]; for (int y = 0; y < sh; y++) for (int x = 0; x < sw; x++) raw[y * sw + x] = src_raw(&FM[fi], sw, x, y);
